@@ -251,6 +251,7 @@ def denJson (ad : String) (sp : Spec) (name name2 : Option String) : Json :=
   | .ok o =>
     let ms := match sp with
       | .syn attrs _ _ => synMeths attrs o
+      | .count _ => { o.meths with fillIntoM := fun _ => none }   -- `Count.fill_into` (counting) is not modelled
       | _ => o.meths
     match ad with
     | "Call" =>
